@@ -80,6 +80,9 @@ func (c *v28Conn) Write(b []byte) (int, error) {
 	n := len(b)
 	if c.partial && n > c.chunk {
 		n = c.chunk
+		if len(b) > 256 { // large writes are still split, into a few dozen pieces rather than tens of thousands
+			n = max(c.chunk, len(b)/(16+c.chunk))
+		}
 	}
 	if c.failAfter >= 0 && c.accepted+int64(n) > c.failAfter {
 		k := int(c.failAfter - c.accepted)
@@ -155,7 +158,7 @@ func v28Payload(tag uint64, extra int) []byte {
 
 type v28Obs struct {
 	conns, reconnects, dropRecords, droppedEvents, delivered, followupsDelivered, parkedEmits, closeRaces, dialFailures int
-	invalid, cleanEnds, emptyDelivered, largeEmitted                                                                    int
+	invalid, cleanEnds, emptyDelivered, largeEmitted, forcedCloses                                                      int
 }
 
 // v28Scenario runs one scenario and returns a violation description ("" = held) with details.
@@ -171,7 +174,7 @@ func v28Scenario(r vh.R, obs *v28Obs) (string, map[string]any) {
 	dialFailLeft := r.IntN(3)
 	scriptSeed := r.Uint64()
 	cfg := Config{Endpoint: "v28", NodeInfo: nodeInfo, BufferSize: bufSize, ReconnectMin: time.Millisecond, ReconnectMax: 2 * time.Millisecond,
-		CloseTimeout: 3 * time.Second, TailDropInterval: time.Millisecond}
+		CloseTimeout: 30 * time.Second, TailDropInterval: time.Millisecond}
 	cli, err := newTCPClient(cfg)
 	if err != nil {
 		return "client construction failed", map[string]any{"err": err.Error()}
@@ -370,10 +373,18 @@ func v28Scenario(r vh.R, obs *v28Obs) (string, map[string]any) {
 		}
 	}()
 
+	closeForced := false
+	timedClose := func() {
+		t0 := time.Now()
+		cli.Close()
+		if time.Since(t0) > 25*time.Second {
+			closeForced = true // Close gave up waiting (its timeout is 30 s here) and cut the connection: queued events are lost by design
+		}
+	}
 	if closeRace {
 		time.Sleep(time.Duration(r.IntN(3000)) * time.Microsecond)
 		obs.closeRaces++
-		cli.Close()
+		timedClose()
 		close(stop)
 	}
 	wgDone := make(chan struct{})
@@ -389,7 +400,10 @@ func v28Scenario(r vh.R, obs *v28Obs) (string, map[string]any) {
 	}
 	if !closeRace {
 		time.Sleep(time.Duration(r.IntN(2000)) * time.Microsecond)
-		cli.Close()
+		timedClose()
+	}
+	if closeForced {
+		obs.forcedCloses++
 	}
 	if v := blockedViolation.Load(); v != nil {
 		return v.(string), map[string]any{"buffer": bufSize, "emitters": emitters}
@@ -565,11 +579,11 @@ func v28Scenario(r vh.R, obs *v28Obs) (string, map[string]any) {
 		}
 		// end of stream: after a clean Close of a healthy connection (all emitters had returned, nothing parked) the ID the
 		// receiver would assign next equals the ID the sender would issue next
-		if ci == len(all)-1 && !closeRace && !c.faulted.Load() && !truncated && c.epoch == finalEpoch && counter != finalNextSeq {
+		if ci == len(all)-1 && !closeRace && !closeForced && !c.faulted.Load() && !truncated && c.epoch == finalEpoch && counter != finalNextSeq {
 			d["receiver_next_id"], d["sender_next_seq"] = counter, finalNextSeq
 			return "end of stream: after a clean Close the receiver's counter differs from the sender's next sequence number (accepted events neither delivered nor reported as dropped)", d
 		}
-		if ci == len(all)-1 && !closeRace && !c.faulted.Load() && !truncated && c.epoch == finalEpoch {
+		if ci == len(all)-1 && !closeRace && !closeForced && !c.faulted.Load() && !truncated && c.epoch == finalEpoch {
 			obs.cleanEnds++
 		}
 	}
@@ -741,6 +755,7 @@ func TestVerifC28(t *testing.T) {
 		h.Count("followups_delivered", int64(obs.followupsDelivered))
 		h.Count("emits_returned_while_write_stalled", int64(obs.parkedEmits))
 		h.Count("payloadless_events_delivered", int64(obs.emptyDelivered))
+		h.Count("closes_that_gave_up_and_cut_the_connection_not_judged_at_end_of_stream", int64(obs.forcedCloses))
 		h.Count("events_emitted_with_payloads_of_4_KiB_or_more", int64(obs.largeEmitted))
 		h.Count("close_racing_with_emitters", int64(obs.closeRaces))
 		h.Count("dial_failures", int64(obs.dialFailures))
